@@ -10,8 +10,8 @@ from .xlib import INT_TYPES, FLT_TYPES
 EMU = os.path.join(os.path.dirname(os.path.dirname(os.path.abspath(__file__))), "luaemu")
 
 # lua.rst / regression tests: scalars, bool, strings, classes, overloads, default arguments
-LUA_ROWS = ["N1", "B1", "S3in"]   # (const char * arguments get no declaration in the Lua wrapper; the corpus only uses std::string)
-LUA_RESULTS = ["void", "N", "B", "S3", "S3ref"]   # (a const char * result produces an empty Lua wrapper: char * is outside the supported subset)
+LUA_ROWS = ["N1", "B1", "S3in", "E1"]   # (const char * arguments get no declaration in the Lua wrapper; the corpus only uses std::string)
+LUA_RESULTS = ["void", "N", "B", "S3", "S3ref", "E"]   # (a const char * result produces an empty Lua wrapper: char * is outside the supported subset)
 LUA_TYPES = ["int", "long", "double", "float", "short", "int32_t", "int64_t", "size_t", "unsigned int"]
 
 
